@@ -24,13 +24,18 @@ from concurrent.futures import ProcessPoolExecutor
 from ..check import ALL, analyse
 
 
-def _variants(prop):
+def _variants(prop, renamed_mutants=False):
     mod = importlib.import_module(f"sa.props.{prop}")
     out = []
     for m in getattr(mod, "MUTANTS", []):
         out.append(("mutant", m))
     for t in getattr(mod, "TWINS", []):
         out.append(("twin", t))
+    # every driver must give the clean verdict on the alpha-renamed package, and still see every mutant there
+    out.append(("twin", dict(name="alpha-renamed locals (whole package)", rename=True, edits=[])))
+    if renamed_mutants:
+        for m in getattr(mod, "MUTANTS", []):
+            out.append(("mutant", dict(m, name=m["name"] + " [on the alpha-renamed package]", rename=True)))
     return out
 
 
@@ -64,6 +69,8 @@ def reverse_patch_edits(patch_path, root):
 
 
 def _edits(v, root="/repo"):
+    if "edits" in v and not v["edits"]:
+        return []
     if "revert_patch" in v:
         return reverse_patch_edits(v["revert_patch"], root)
     if "edits" in v:
@@ -88,6 +95,15 @@ def run_one(task):
         except SyntaxError as exc:
             return (prop, kind, v["name"], "bad-variant", f"does not compile: {exc}")
         overlay[rel] = src
+    if v.get("rename"):
+        from .rename import renamed, renamed_package
+        full = dict(renamed_package(root))
+        for rel, src in overlay.items():
+            try:
+                full[rel] = renamed(src)
+            except Exception as exc:
+                return (prop, kind, v["name"], "bad-variant", f"cannot rename {rel}: {exc}")
+        overlay = full
     try:
         code, rep, _ = analyse(prop, root, "quick", quiet=True, overlay=overlay)
     except Exception as exc:  # the analyser itself crashed on the variant
@@ -111,10 +127,10 @@ def run_one(task):
     return (prop, kind, v["name"], "MISSED", "checker stayed silent")
 
 
-def selftest(props, root="/repo", jobs=16):
+def selftest(props, root="/repo", jobs=16, renamed_mutants=False):
     tasks = []
     for p in props:
-        for kind, v in _variants(p):
+        for kind, v in _variants(p, renamed_mutants):
             tasks.append((p, kind, v, root))
     if not tasks:
         return []
@@ -130,9 +146,10 @@ def main(argv=None):
     ap.add_argument("--root", default="/repo")
     ap.add_argument("--jobs", type=int, default=16)
     ap.add_argument("-v", action="store_true")
+    ap.add_argument("--renamed", action="store_true", help="additionally run every mutant on the alpha-renamed package")
     a = ap.parse_args(argv)
     props = a.props or ALL
-    res = selftest(props, a.root, a.jobs)
+    res = selftest(props, a.root, a.jobs, a.renamed)
     bad = 0
     for prop, kind, name, status, detail in res:
         good = status in ("ok", "skipped")
